@@ -8,7 +8,7 @@
     values), every combination of options, every grace period and interval, every fault plan and
     cancellation point, every clock. [file s k] is the value of the terminal key k.
     [jt o clk s0 k] = deleting k is justified at one of the readings: exists i, justified o (clk i) s0 k. *)
-From CM Require Import Lib.Str Lib.CleanSyntax Gen.Consts Clean.Model Clean.Proofs Clean.Prog Clean.Check Clean.SpecProofs Clean.Concurrent Clean.Interfere Clean.Effective Clean.EffectiveCerts Clean.Kill Clean.InterfereSeq.
+From CM Require Import Lib.Str Lib.CleanSyntax Gen.Consts Clean.Model Clean.Proofs Clean.Prog Clean.Check Clean.SpecProofs Clean.Concurrent Clean.Interfere Clean.Effective Clean.EffectiveCerts Clean.Kill Clean.InterfereSeq Clean.ConcurrentKill.
 From Coq Require Import String Ascii.
 Open Scope Z_scope.
 
@@ -372,6 +372,35 @@ Proof.
   rewrite Z.leb_le. split; intros H; nia.
 Qed.
 Print Assumptions C18_expired_is_past_not_after.
+
+(** ** concurrent cleaners some of whom are killed, composed with the behaviour of the lock (Clean/ConcurrentKill.v): threads
+    step call by call on the shared storage; a thread's process may die at any moment ([LKill]: no further call; a holder
+    keeps the lock), and the lock of a DEAD holder expires ([LExpire]: FileStorage lock file stale after
+    2 x lockFreshnessInterval, removed by the next contender -- C08_stale_recovers; a live holder's lock does not expire --
+    C08_mutex_no_crash). EVERY schedule of calls, kills and expiries: a live cleaner is inside only while it holds the lock,
+    the holder is inside or dead, and whenever the lock is free the storage is the sequential composition of the cleanings
+    completed or cut short so far (a cleaning cut short at call n = the model under [with_kill e n]) *)
+Theorem C18_concurrent_kill_serializable : forall s0 thr0 sched, kinit_ok thr0 ->
+  let c := ksteps (KS s0 None thr0) sched in
+  exists done,
+    Forall (okrun thr0) done /\
+    (ks_holder c = None -> ks_store c = clean_seq done s0) /\
+    (forall t th p, ks_thr c t = Some th -> kt_ph th = KLocked p -> ks_holder c = Some t) /\
+    (forall t, ks_holder c = Some t -> exists th, ks_thr c t = Some th /\
+               ((exists p, kt_ph th = KLocked p) \/ kt_ph th = KDead)).
+Proof. exact concurrent_kill_serial. Qed.
+Print Assumptions C18_concurrent_kill_serializable.
+
+(** hence, whoever dies whenever: with the lock free (all finished, or the dead holders' locks expired), every key other
+    than last_clean.json has its initial value or is gone and justified for one of the cleaners *)
+Theorem C18_concurrent_kill_safe : forall s0 thr0 sched k, kinit_ok thr0 -> k <> spec_last_clean ->
+  let c := ksteps (KS s0 None thr0) sched in
+  ks_holder c = None ->
+  file (ks_store c) k = file s0 k \/
+  (file (ks_store c) k = None /\
+   exists t th0 i, thr0 t = Some th0 /\ justified (kt_opts th0) (kt_clk th0 i) s0 k = true).
+Proof. exact concurrent_kill_safe. Qed.
+Print Assumptions C18_concurrent_kill_safe.
 
 (** ** who cleans, read from the source on every run: nothing inside the package calls CleanStorage (there is no
     timer path in certmagic itself -- [Cache.maintainAssets] renews and staples only; the application, e.g. Caddy's
@@ -797,3 +826,26 @@ Proof.
     + intros f [<-|[<-|[]]]; reflexivity.
   - vm_compute. repeat split; reflexivity.
 Qed.
+
+(** three cleaners; the first dies after 20 steps (X.crt of the dead site deleted, X.key / X.json not), the others wait;
+    its lock expires; the second cleans what it finds and records, then the third (no interval) *)
+Definition ex_kthr0 : nat -> option kthr :=
+  fun t => if (t <? 3)%nat then Some (KThr ex_env ex_opts_ni (at_ T) KFresh []) else None.
+Definition ex_ksched : list klabel :=
+  List.repeat (LStep 0%nat) 20 ++ [LStep 1%nat; LStep 2%nat; LKill 0%nat; LStep 1%nat; LStep 0%nat; LExpire] ++
+  List.concat (List.repeat [LStep 1%nat; LStep 2%nat] 90).
+Example ex_kinit : kinit_ok ex_kthr0.
+Proof.
+  intros t th. unfold ex_kthr0. destruct (t <? 3)%nat; [|discriminate]. intros H.
+  assert (E : th = KThr ex_env ex_opts_ni (at_ T) KFresh []) by congruence. rewrite E. repeat split.
+Qed.
+Example ex_kill_schedule :
+  let c := ksteps (KS ex_store2 None ex_kthr0) ex_ksched in
+  ks_holder c = None /\
+  lookup (ks_store c) (s2k "certificates/iss/dead.example/dead.example.crt") = None /\
+  lookup (ks_store c) (s2k "certificates/iss/dead.example/dead.example.key") <> None /\
+  lookup (ks_store c) (s2k "ocsp/a-stale") = None /\
+  lookup (ks_store c) (s2k "certificates/iss/live.example/live.example.key") <> None /\
+  match ks_thr c 0%nat with Some th => match kt_ph th with KDead => true | _ => false end | None => false end = true /\
+  match ks_thr c 1%nat with Some th => match kt_ph th with KFinished RNil => true | _ => false end | None => false end = true.
+Proof. vm_compute. split; [reflexivity|]. split; [reflexivity|]. split; [discriminate|]. split; [reflexivity|]. split; [discriminate|]. split; reflexivity. Qed.
